@@ -359,7 +359,7 @@ def evaluator_roundtrip(case, ctx):
 
 
 # ------------------------------------------------------------------------------------------------
-NATIVE_BASE = ["ZERO", "ONE", "LDA_X", "GGA_X_PBE", "GGA_C_PBE"]
+NATIVE_BASE = ["ZERO", "ONE", "LDA_X", "GGA_X_PBE", "GGA_C_PBE", "GGA_X_CHACHIYO", "RHO"]     # (NLDA_X_DAMP needs a 4th feature row)
 LIBXC_MUL = ["LDA_X", "GGA_X_PBE", "LDA_C_PW_MOD", "GGA_C_PBE"]
 LIBXC_ADD = [None, "LDA_X", "GGA_C_PBE", "SS_GGA_C_PBE", "OS_GGA_C_PBE"]
 
@@ -383,7 +383,7 @@ def st_model(draw):
         maps = [draw(st_map_typed(n0, omega_ok=True)) for _ in range(nm)]
         evs = [draw(st_evaluator()) for _ in range(draw(st.integers(1, 3)))]
         kernels.append({"maps": maps, "evals": evs, "mode": draw(st.sampled_from(["SEP", "NPOL"])),
-                        "mul": draw(st.integers(0, 7)), "add": draw(st.integers(0, 7))})
+                        "mul": draw(st.integers(0, 13)), "add": draw(st.integers(0, 13))})
     return {"fs": fs, "api": draw(st.sampled_from([1, 2])), "kernels": kernels,
             "libxc_baseline": draw(st.sampled_from([None, "GGA_X_PBE"]))}
 
@@ -663,3 +663,75 @@ def negative(case, ctx):
                        "evaluator": ev, "empty": None}[case["wrong"]]
                 _must_raise(ctx, ("accepted", kind, case["wrong"]), lambda: load_cider_model(obj, None))
                 _must_raise(ctx, ("accepted", kind, case["wrong"]), lambda: load_cider_model(obj, case["fmt"]))
+
+
+# ------------------------------------------------------------------------------------------------
+# analyzers: the hdf5 dump / load pair listed among the property's mechanisms
+@st.composite
+def st_analyzer_case(draw):
+    from cpverif import gen_mol as GM
+
+    return {"mol": draw(GM.st_mol_chem(max_atoms=3, max_elec=10, levels=(0,), bases=("sto-3g", "6-31g"))),
+            "uks": draw(st.booleans()), "grids_level": draw(st.sampled_from([0, 0, 1, 2, 3])),
+            "xc": draw(st.sampled_from(["LDA", "PBE"])), "via": draw(st.sampled_from(["from_calc", "from_calc_level", "direct"])),
+            "cycles": draw(st.integers(1, 2))}
+
+
+@subcheck("C14", "analyzer_roundtrip", st_analyzer_case, quick=80, thorough=800, shrink=False,
+          rule="RHFAnalyzer / UHFAnalyzer built from a short RKS/UKS calculation (2 SCF cycles; from_calc with the calculation's "
+               "grid level 0-3, from_calc with an explicit level, or the constructor) with the density tabulated, written with "
+               "dump() and read with ElectronAnalyzer.load(), 1-2 cycles: same class, same grids_level, grid coordinates and "
+               "weights, density matrix, orbitals, occupations and every stored data entry bit-identical, and the density "
+               "recomputed on the reloaded object bit-identical; non-trivial = always",
+          tolerances={"stored and recomputed arrays": "bitwise"})
+def analyzer_roundtrip(case, ctx):
+    from pyscf import dft
+
+    from cpverif import gen_mol as GM
+    from ciderpress.pyscf.analyzers import ElectronAnalyzer, RHFAnalyzer, UHFAnalyzer
+
+    mol = GM.build_mol(case["mol"])
+    uks = case["uks"] or mol.spin != 0
+    ks = dft.UKS(mol) if uks else dft.RKS(mol)
+    ks.xc = case["xc"]
+    ks.max_cycle = 2
+    ks.verbose = 0
+    lvl = int(case["grids_level"])
+    ks.grids.level = lvl if case["via"] == "from_calc" else 1
+    ks.kernel()
+    if case["via"] == "from_calc":
+        ref = ElectronAnalyzer.from_calc(ks)
+    elif case["via"] == "from_calc_level":
+        ref = ElectronAnalyzer.from_calc(ks, grids_level=lvl)
+    else:
+        ref = (UHFAnalyzer if uks else RHFAnalyzer)(mol, ks.make_rdm1(), grids_level=lvl, mo_occ=ks.mo_occ, mo_coeff=ks.mo_coeff,
+                                                    mo_energy=ks.mo_energy)
+    rho_ref = np.array(ref.get_rho_data(), copy=True)
+    ctx.event("%s level=%d via=%s" % ("UKS" if uks else "RKS", lvl, case["via"]))
+    ctx.nontrivial(["UKS" if uks else "RKS", lvl, case["via"], GM.mol_class(case["mol"]), case["cycles"]])
+    cur = ref
+    with TmpDir() as tmp:
+        for c in range(case["cycles"]):
+            p = os.path.join(tmp, "analyzer_%d.hdf5" % c)
+            cur.dump(p)
+            new = ElectronAnalyzer.load(p)
+            tag = "cycle%d" % c
+            ctx.check(type(new) is type(ref), ("analyzer", "type"), got=type(new).__name__, want=type(ref).__name__)
+            ctx.check(int(new.grids_level) == int(ref.grids_level) == lvl, ("analyzer", "grids_level"), got=repr(new.grids_level), want=lvl)
+            ctx.check(new.grids.coords.shape == ref.grids.coords.shape, ("analyzer", "grid_size"),
+                      got=int(new.grids.weights.size), want=int(ref.grids.weights.size))
+            ctx.equal_bits(new.grids.coords, ref.grids.coords, ("analyzer", "grid_coords"))
+            ctx.equal_bits(new.grids.weights, ref.grids.weights, ("analyzer", "grid_weights"))
+            for name in ("dm", "mo_occ", "mo_coeff", "mo_energy"):
+                ctx.equal_bits(np.asarray(getattr(new, name)), np.asarray(getattr(ref, name)), ("analyzer", "attribute", name), cycle=c)
+            ctx.check(set(new.keys()) == set(ref.keys()), ("analyzer", "data_keys"), got=sorted(new.keys()), want=sorted(ref.keys()))
+            for k in sorted(ref.keys()):
+                a, b = ref.get(k), new.get(k)
+                if isinstance(a, str) or isinstance(b, str):
+                    ctx.check(a == b, ("analyzer", "data", "string_entry"), key=k, got=repr(b), want=repr(a))
+                else:
+                    ctx.equal_bits(np.asarray(b), np.asarray(a), ("analyzer", "data", "array_entry"), key=k, cycle=c)
+            again = np.array(new.get_rho_data(overwrite=True), copy=True)
+            ctx.check(again.shape == rho_ref.shape, ("analyzer", "recomputed_rho_shape"), got=list(again.shape), want=list(rho_ref.shape))
+            ctx.equal_bits(again, rho_ref, ("analyzer", "recomputed_rho"), cycle=c)
+            cur = new
